@@ -366,7 +366,7 @@ func init() {
 		Prop: "C18",
 		Budget: func(tier string) time.Duration {
 			if tier == "thorough" {
-				return 40 * time.Minute
+				return 80 * time.Minute
 			}
 			return 150 * time.Second
 		},
